@@ -563,6 +563,9 @@ class Intro:
             else:
                 out.append("%sfor %s in enumerate(%s):" % (ind, v, self.expr("list_str", 1)))
             out += self.block(ind + "    ", depth - 1, in_func, True)
+            if r.random() < 0.15:
+                out.append("%selse:" % ind)
+                out += self.block(ind + "    ", depth - 1, in_func, in_loop)
             self.vars = saved
         elif k < 0.9:
             c = self.fresh("count")
@@ -574,6 +577,9 @@ class Intro:
             out.append("%s    %s += 1" % (ind, c))
             if r.random() < 0.2:
                 out.append("%s    if %s:\n%s        %s" % (ind, self.expr("bool", 1), ind, r.choice(["break", "continue"])))
+            if r.random() < 0.15:
+                out.append("%selse:" % ind)
+                out += self.block(ind + "    ", depth - 1, in_func, in_loop)
             self.vars = saved
         elif in_func is None and ind == "":
             f = self.fresh("func")
@@ -732,6 +738,85 @@ class Intro:
         if "math" in self.imports and self.rng.random() < 0.3:
             head.append("from math import pi")
         return "\n".join(head + body) + "\n"
+
+
+# hand-written CS1 programs, one per construct family an introductory course reaches (every one must be
+# analysed completely); also recombined at random by `gen_cs1_mix`
+CS1_PROGRAMS = [
+"n = 0\nwhile n < 3:\n    n += 1\nelse:\n    print('done')\n",
+"for i in range(3):\n    if i == 5:\n        break\nelse:\n    print('none')\n",
+"counter = 0\ndef bump():\n    global counter\n    counter = counter + 1\nbump()\nprint(counter)\n",
+"xs = [1, 2, 3]\ndel xs[0]\nprint(xs)\n",
+"d = {'a': 1}\ndel d['a']\nprint(d)\n",
+"double = lambda v: v * 2\nprint(double(4))\n",
+"names = ['b', 'a']\nnames.sort(key=lambda s: s.lower())\nprint(names)\n",
+"def check(v):\n    if v < 0:\n        raise ValueError('negative')\n    return v\nprint(check(3))\n",
+"try:\n    v = int('x')\nexcept ValueError as err:\n    print(err)\n    v = 0\nelse:\n    print('ok')\nfinally:\n    print('end')\nprint(v)\n",
+"squares = {n: n * n for n in range(4)}\nprint(squares[2])\n",
+"letters = {c for c in 'hello'}\nprint(len(letters))\n",
+"def outer(a):\n    def inner(b):\n        return a + b\n    return inner(2)\nprint(outer(1))\n",
+"def total(*values):\n    result = 0\n    for v in values:\n        result += v\n    return result\nprint(total(1, 2, 3))\n",
+"def show(**options):\n    for key in options:\n        print(key, options[key])\nshow(a=1, b=2)\n",
+"grid = [[0] * 3 for _ in range(2)]\ngrid[1][2] = 5\nprint(grid)\n",
+"pairs = [(1, 'a'), (2, 'b')]\nfor number, letter in pairs:\n    print(number + 1, letter.upper())\n",
+"text = 'a,b;c'\nparts = text.replace(';', ',').split(',')\nprint(parts[-1][::-1])\n",
+"value = None\nif value is not None and value > 3:\n    print(value)\n",
+"x = 5\nprint('big' if x > 3 else 'small')\nassert x > 0\n",
+"i = 0\nwhile True:\n    i += 1\n    if i % 2 == 0:\n        continue\n    if i > 5:\n        break\nprint(i)\n",
+"total = 0\nfor a in range(3):\n    for b in range(a):\n        total += a * b\nprint(total)\n",
+"def fact(n):\n    return 1 if n <= 1 else n * fact(n - 1)\nprint(fact(5))\n",
+"a, b = 1, 2\na, b = b, a\nprint(a, b)\n",
+"first, *rest = [1, 2, 3]\nprint(first, rest)\n",
+"s = 'hello'\nprint(s[0], s[-1], s[1:3], s[::2], len(s), s * 2, 'h' in s)\n",
+"d = {}\nd['k'] = d.get('k', 0) + 1\nfor k, v in d.items():\n    print(k, v)\n",
+"nums = [3, 1, 2]\nprint(max(nums), min(nums), sum(nums) / len(nums), sorted(nums, reverse=True))\n",
+"print('a', 'b', sep='-', end='!\\n')\n",
+"x = 10\nx //= 3\nx **= 2\nx %= 4\nprint(x)\n",
+"name = input('Name? ')\nage = int(input('Age? '))\nprint(f'{name} is {age} years old; next year {age + 1}')\n",
+"import random\nchoices = ['a', 'b']\nprint(random.choice(choices), random.random(), random.randint(1, 6))\nrandom.shuffle(choices)\n",
+"import math\nprint(math.sqrt(16), math.floor(2.5), math.pi, math.pow(2, 3))\n",
+"from random import randint\nprint(randint(1, 2))\n",
+"import math as m\nprint(m.sqrt(4))\n",
+"class Dog:\n    kind = 'dog'\n    def __init__(self, name):\n        self.name = name\n    def speak(self):\n        return self.name + ' says woof'\nd = Dog('Rex')\nprint(d.speak(), d.kind)\n",
+"def greet(name='world'):\n    \"\"\"Greets.\"\"\"\n    print('hello', name)\ngreet()\ngreet('you')\ngreet(name='me')\n",
+"x = 3\ny = 4.5\nz = x + y * 2 - x / y // 1 % 2 ** 2\nprint(z, -x, +y, not x, x < y <= 5, x == 3 and y != 2 or False)\n",
+"xs = []\nxs.append(1)\nxs.extend([2, 3])\nxs.insert(0, 0)\nxs.remove(2)\nprint(xs.pop(), xs.index(1), xs.count(1), xs)\nxs.clear()\n",
+"t = (1, 2, 3)\nprint(t[0], len(t), t.count(1), t.index(2), t + (4,), t * 2)\n",
+"s = {1, 2}\ns.add(3)\ns.discard(1)\nprint(s | {4}, s & {2}, s - {2}, 2 in s)\n",
+"pass\n",
+"if True:\n    pass\nelif False:\n    pass\nelse:\n    pass\n",
+"x = int(3.7) + float('2.5') + round(2.567, 1) + abs(-3) + pow(2, 3) + len(str(123)) + ord('a')\nprint(chr(97), bool(0), type(x), isinstance(x, float))\n",
+"with open('f.txt', 'w') as out:\n    out.write('hi')\nwith open('f.txt') as inp:\n    data = inp.read()\n    lines = data.split('\\n')\nprint(lines)\n",
+"matrix = [[1, 2], [3, 4]]\nflat = [cell for row in matrix for cell in row if cell % 2 == 0]\nprint(flat)\n",
+"def f():\n    return\nprint(f())\n",
+"def g(a, b=2, *args, c, d=4, **kw):\n    return a + b + c + d\nprint(g(1, c=3))\n",
+"x = 1\ndef h():\n    x = 2\n    def k():\n        nonlocal x\n        x = 3\n    k()\n    return x\nprint(h(), x)\n",
+"nums = list(range(10))\nevens = nums[::2]\nnums[2:4] = []\nprint(evens, nums, nums[-3:])\n",
+"print('%s is %d' % ('a', 1), '{} {}'.format(1, 2), '{0:.2f}'.format(3.14159), 'a'.join(['x', 'y']))\n",
+"import json\ndata = json.loads('{\"a\": [1, 2]}')\nprint(data['a'][0], json.dumps(data, indent=2))\n",
+"while False:\n    pass\nfor _ in []:\n    pass\n",
+"x: int = 5\ny: list[int] = [1]\nz: dict[str, int] = {}\ndef typed(a: int, b: str = 'x') -> bool:\n    return len(b) > a\nprint(typed(x), y, z)\n",
+"result = [n for n in range(5)]\ntotal = sum(n * n for n in result)\nprint(total, any(n > 3 for n in result), all(result))\n",
+"word = 'level'\nis_pal = word == word[::-1]\nprint(is_pal)\n",
+"def count_vowels(text):\n    count = 0\n    for ch in text.lower():\n        if ch in 'aeiou':\n            count += 1\n    return count\nprint(count_vowels('Hello'))\n",
+"x = 5\nmatch x:\n    case 1:\n        print('one')\n    case _:\n        print('other')\n",
+"print(1 if 2 else 3, (lambda: 4)(), [1, 2][0], {'a': 1}['a'], (1, 2)[1], 'ab'[0])\n",
+"import string\nprint(string.ascii_uppercase)\nimport pprint\npprint.pprint([1])\n",
+"x = 0b101 + 0o7 + 0xff + 1e3 + 1_000\nprint(x, 1j.real)\n",
+"xs = [1, 2, 3]\nfor i, x in enumerate(xs, 1):\n    xs[i - 1] = x * 2\nprint(xs)\n",
+"data = {'a': [1, 2], 'b': [3]}\nfor key in sorted(data):\n    for item in data[key]:\n        print(key, item)\nprint(list(data.keys()), list(data.values()))\n",
+"global_list = []\ndef add(item):\n    global_list.append(item)\nadd(1)\nprint(global_list)\n",
+"def maybe(n):\n    if n:\n        return 'yes'\nprint(maybe(1))\n",
+"exit()\n", "import sys\nsys.exit(0)\n", "import os\nprint(os.getcwd())\n", "import time\ntime.sleep(1)\nprint(time.time())\n",
+"import turtle\nt = turtle.Turtle()\nt.forward(10)\n", "from math import *\nprint(sqrt(4))\n",
+]
+
+
+def gen_cs1_mix(rng):
+    """2-3 of the CS1 programs one after the other (names may collide: still an introductory program)."""
+    parts = [rng.choice(CS1_PROGRAMS) for _ in range(rng.randint(2, 3))]
+    parts = [p for p in parts if "exit()" not in p]
+    return "".join(parts) or "pass\n"
 
 
 def gen_intro(rng):
